@@ -325,6 +325,7 @@ var layoutSeeds = []string{
 	"g := {|x|\n  defer x.p\n  return x if x > 1\n  x * 2\n}\ng(\n  3\n)\n",
 	"x := 1 # trailing comment\n# full comment line\ny := 2 # another\n[x, # c\n  y]\n",
 	"<{|i|\n  yield i if i < 3\n  recur(i + 1)\n}>.new(0)\n  |@{|v| v}\n  |~.len\n",
+	"v := `first line\nsecond line\n\n  fourth`\nw := `a\nb`\n[v.len, w.len, v]\n",
 	"f := {|a, k: 1, j: 2| [a, k, j]}\nf(1, k: S(1), j: S(2))\nf(2, j: S(3), k: S(4))\nf(3, k: S(5), k: S(6))\n",
 	"g := {|a, k: S(1), j: S(2), k: S(3)| [a, k, j]}\ng(1, **{k: S(4)}, **{j: S(5)})\no := {m: m{|k: 1, j: 2| [k, j]}}\no.m(j: S(6), k: S(7), j: S(8))\n",
 }
@@ -382,6 +383,12 @@ func (c *c16Check) Run(seed, run uint64, rec []uint32, st Stats, only *Viol) []V
 	switch kind {
 	case "chunking":
 		src, name := c.seedProgram(t)
+		if !strings.Contains(src, "\r") && t.Chance(1, 3) {
+			// the same text with CRLF line ends (most of the repository's own .pangaea files
+			// have them); a line break inside a raw string is then two bytes a read can split
+			src, name = strings.ReplaceAll(src, "\n", "\r\n"), name+"+crlf"
+			s.ByKind["chunking-crlf"]++
+		}
 		w, err := parse1(src)
 		if err != nil {
 			s.Discarded++
